@@ -13,6 +13,17 @@ Dropping an attribute from a comparison changes a table and breaks Props/C15 `eq
       `if self.a != other.a: return False`, a conjunction of `self.a == other.a` returning True, `return True/False`,
       delegation to ProcessGroupConfig.__eq__, the getattr loop above).  Props/C15 `eq_shape_understood` demands
       that there is none: a hand-written loop or an extra early return inside an __eq__ is not silently ignored.
+The main loop and a group removed by a request of the same pass (supervisor/supervisord.py Supervisor.runforever,
+supervisor/process.py ProcessGroupBase.__eq__):
+  loopIteratesSnapshot : the loop that calls <group>.transition() runs over a list taken from self.process_groups
+      before poll() (requests are dispatched between the two), not over the live table
+  loopTransitionGuard  : the test in front of <group>.transition() in that loop: `.identity` (any(group is g for g in
+      self.process_groups.values())), `.membershipEq` (group in self.process_groups.values(), or any(group == g ...):
+      decided by ProcessGroupBase.__eq__), `.none` (no test)
+  processGroupEqDefined / processGroupEqAttrs : whether ProcessGroupBase defines __eq__ and the self.<path> ==
+      other.<path> comparisons it consists of
+Any other shape is an extraction error (ValueError).  Props/C15 `removed_group_not_transitioned` is proved for the
+extracted guard.
 """
 import ast, os
 from extract import REPO, lean_str
@@ -143,7 +154,107 @@ def _strlist(cls, name):
     raise KeyError(name)
 
 
+def _values_of_table(e):
+    """`self.process_groups.values()` possibly wrapped in list(...)"""
+    if isinstance(e, ast.Call) and isinstance(e.func, ast.Name) and e.func.id == 'list' and len(e.args) == 1 and not e.keywords:
+        e = e.args[0]
+    return ast.unparse(e) == 'self.process_groups.values()'
+
+
+def _is_transition_call(st, var):
+    return (isinstance(st, ast.Expr) and isinstance(st.value, ast.Call) and not st.value.args and not st.value.keywords
+            and ast.unparse(st.value.func) == var + '.transition')
+
+
+def _guard_kind(test, var):
+    if (isinstance(test, ast.Call) and isinstance(test.func, ast.Name) and test.func.id == 'any' and len(test.args) == 1 and not test.keywords
+            and isinstance(test.args[0], ast.GeneratorExp) and len(test.args[0].generators) == 1):
+        gen = test.args[0].generators[0]
+        elt = test.args[0].elt
+        if (isinstance(gen.target, ast.Name) and not gen.ifs and not gen.is_async and _values_of_table(gen.iter) and isinstance(elt, ast.Compare)
+                and len(elt.ops) == 1 and isinstance(elt.left, ast.Name) and isinstance(elt.comparators[0], ast.Name)
+                and {elt.left.id, elt.comparators[0].id} == {var, gen.target.id} and var != gen.target.id):
+            if isinstance(elt.ops[0], ast.Is):
+                return 'identity'
+            if isinstance(elt.ops[0], ast.Eq):
+                return 'membershipEq'
+    if (isinstance(test, ast.Compare) and len(test.ops) == 1 and isinstance(test.ops[0], ast.In) and isinstance(test.left, ast.Name)
+            and test.left.id == var and _values_of_table(test.comparators[0])):
+        return 'membershipEq'
+    raise ValueError('runforever: the test in front of %s.transition() has a shape this extractor does not know: %s' % (var, ast.unparse(test)))
+
+
+def _loop_facts():
+    """(iterates a snapshot taken before poll(), guard kind) for the loop of runforever that calls <group>.transition()"""
+    sd = ast.parse(open(os.path.join(REPO, 'supervisor/supervisord.py')).read())
+    rf = _meth(_cls(sd, 'Supervisor'), 'runforever')
+    loops = [n for n in ast.walk(rf) if isinstance(n, ast.For) and isinstance(n.target, ast.Name)
+             and any(_is_transition_call(c, n.target.id) for c in ast.walk(n))]
+    if len(loops) != 1:
+        raise ValueError('runforever: %d loops call <group>.transition(), expected 1' % len(loops))
+    loop = loops[0]
+    var = loop.target.id
+    polls = [n.lineno for n in ast.walk(rf) if isinstance(n, ast.Call) and ast.unparse(n.func).endswith('poller.poll')]
+    if len(polls) != 1 or loop.lineno < polls[0]:
+        raise ValueError('runforever: the transition loop is not after the single poll() call')
+    if isinstance(loop.iter, ast.Name):
+        assigns = [n for n in ast.walk(rf) if isinstance(n, ast.Assign) and len(n.targets) == 1 and isinstance(n.targets[0], ast.Name)
+                   and n.targets[0].id == loop.iter.id]
+        if len(assigns) != 1 or not _values_of_table(assigns[0].value) or not isinstance(assigns[0].value, ast.Call) \
+                or ast.unparse(assigns[0].value.func) != 'list':
+            raise ValueError('runforever: %s is not assigned once from list(self.process_groups.values())' % loop.iter.id)
+        snapshot = assigns[0].lineno < polls[0]        # taken after poll(): the same as running over the live table
+    elif _values_of_table(loop.iter):
+        snapshot = False
+    else:
+        raise ValueError('runforever: the transition loop runs over %s' % ast.unparse(loop.iter))
+    if loop.orelse:
+        raise ValueError('runforever: the transition loop has an else branch')
+    body = [st for st in loop.body if not (isinstance(st, ast.Expr) and isinstance(st.value, ast.Constant))]
+    if len(body) == 1 and _is_transition_call(body[0], var):
+        return snapshot, 'none'
+    if (len(body) == 1 and isinstance(body[0], ast.If) and not body[0].orelse and len(body[0].body) == 1
+            and _is_transition_call(body[0].body[0], var)):
+        return snapshot, _guard_kind(body[0].test, var)
+    raise ValueError('runforever: the body of the transition loop has a shape this extractor does not know: %s' % ast.unparse(loop).split('\n')[1:3])
+
+
+def _group_eq_facts():
+    """(defined, [compared attribute paths]) of ProcessGroupBase.__eq__"""
+    pr = ast.parse(open(os.path.join(REPO, 'supervisor/process.py')).read())
+    cls = _cls(pr, 'ProcessGroupBase')
+    eqs = [n for n in cls.body if isinstance(n, ast.FunctionDef) and n.name == '__eq__']
+    if not eqs:
+        return False, []
+    body = [st for st in eqs[0].body if not (isinstance(st, ast.Expr) and isinstance(st.value, ast.Constant))]
+    if len(body) != 1 or not isinstance(body[0], ast.Return) or body[0].value is None:
+        raise ValueError('ProcessGroupBase.__eq__ is not a single return statement')
+    v = body[0].value
+    parts = v.values if isinstance(v, ast.BoolOp) and isinstance(v.op, ast.And) else [v]
+    paths = []
+    for c in parts:
+        if not (isinstance(c, ast.Compare) and len(c.ops) == 1 and isinstance(c.ops[0], ast.Eq)):
+            raise ValueError('ProcessGroupBase.__eq__: not a comparison with ==: %s' % ast.unparse(c))
+        l, r = ast.unparse(c.left), ast.unparse(c.comparators[0])
+        if not (l.startswith('self.') and r.startswith('other.') and l[len('self.'):] == r[len('other.'):]):
+            raise ValueError('ProcessGroupBase.__eq__: does not pair self.<x> with other.<x>: %s' % ast.unparse(c))
+        paths.append(l[len('self.'):])
+    return True, paths
+
+
+LOOP_TABLE_HEADER = [
+    '/-- how runforever decides, after the requests of a pass were dispatched, whether a group of the list taken before poll() is still active -/',
+    'inductive GuardKind where',
+    '  | identity      -- any(group is g for g in self.process_groups.values())',
+    '  | membershipEq  -- group in self.process_groups.values()  (ProcessGroupBase.__eq__ decides)',
+    '  | none          -- no test: every group of the list is transitioned',
+    'deriving DecidableEq, Repr',
+]
+
+
 def TABLES():
+    snapshot, guard = _loop_facts()
+    eq_defined, eq_paths = _group_eq_facts()
     opt = ast.parse(open(os.path.join(REPO, 'supervisor/options.py')).read())
     dt = ast.parse(open(os.path.join(REPO, 'supervisor/datatypes.py')).read())
     pc = _cls(opt, 'ProcessConfig')
@@ -212,6 +323,11 @@ def TABLES():
     L.append('/-- ServerOptions.process_config: does it assign self.process_group_configs, and under which tests -/')
     L.append('def processConfigInstalls : Bool := %s' % ('true' if found[0] else 'false'))
     lst('processConfigInstallGuards', guards)
+    L.extend(LOOP_TABLE_HEADER)
+    L.append('def loopIteratesSnapshot : Bool := %s' % ('true' if snapshot else 'false'))
+    L.append('def loopTransitionGuard : GuardKind := .%s' % guard)
+    L.append('def processGroupEqDefined : Bool := %s' % ('true' if eq_defined else 'false'))
+    lst('processGroupEqAttrs', eq_paths)
     return L
 
 
